@@ -39,6 +39,44 @@ theorem weights_sum_one (thr reg : α) (n d k : Nat) (x r : List (List α)) (p :
   rw [← sumRange_eq]
   exact hrow i hi
 
+/-- **… and approximately so when the rows sum to one only approximately** (what floating point gives:
+the random initialiser normalises in f64 and casts, an E-step row is `exp` of rounded logs): if every row sum
+is within `ε` of one, so is the sum of the weights -/
+theorem weights_sum_approx (thr reg : α) (n d k : Nat) (x r : List (List α)) (p : Params α) (ε : α)
+    (hn : 0 < n) (hrow : ∀ i, i < n → |sumRange k (fun j => at2 r i j) - 1| ≤ ε)
+    (h : estimateParams thr reg n d k x r = .ok p) :
+    |sumS p.weights - 1| ≤ ε := by
+  obtain ⟨_, _, hw, _, _⟩ := estimateParams_ok thr reg n d k x r p h
+  have hnpos : (0 : α) < (n : α) := Nat.cast_pos.mpr hn
+  have hdiv : ∀ l : List α, (l.map (fun v => v / (n : α))).sum = l.sum / (n : α) := by
+    intro l
+    induction l with
+    | nil => simp
+    | cons a t ih => simp [ih, add_div]
+  have hsum : sumS p.weights = (∑ i ∈ Finset.range n, ∑ j ∈ Finset.range k, at2 r i j) / (n : α) := by
+    rw [hw, sumS_eq_sum, hdiv, ← sumS_eq_sum]
+    unfold nkOf
+    rw [sumS_map_range]
+    simp only [sumRange_eq]
+    rw [Finset.sum_comm]
+  have hsub : sumS p.weights - 1 =
+      (∑ i ∈ Finset.range n, ((∑ j ∈ Finset.range k, at2 r i j) - 1)) / (n : α) := by
+    rw [hsum, Finset.sum_sub_distrib]
+    simp
+    field_simp
+  rw [hsub, abs_div, abs_of_pos hnpos, div_le_iff₀ hnpos]
+  calc |∑ i ∈ Finset.range n, ((∑ j ∈ Finset.range k, at2 r i j) - 1)|
+      ≤ ∑ i ∈ Finset.range n, |(∑ j ∈ Finset.range k, at2 r i j) - 1| := Finset.abs_sum_le_sum_abs _ _
+    _ ≤ ∑ _i ∈ Finset.range n, ε := Finset.sum_le_sum (fun i hi => by
+        rw [← sumRange_eq]; exact hrow i (Finset.mem_range.mp hi))
+    _ = ε * (n : α) := by simp [mul_comm]
+
+/-- non-vacuity: rows summing to `1, 99/100, 1` satisfy the hypothesis with `ε = 1/100` -/
+example : ∀ i, i < 3 → |sumRange 2 (fun j => at2 [[(1 : ℚ), 0], [99/100, 0], [0, 1]] i j) - 1| ≤ 1/100 := by
+  intro i hi
+  have : i = 0 ∨ i = 1 ∨ i = 2 := by omega
+  rcases this with rfl | rfl | rfl <;> norm_num [sumRange, sumS, at2, List.range_succ]
+
 /-- **weights are positive**: the `EmptyCluster` guard (`nk.min() < 10ε` is an
 error) leaves only components with mass `≥ thr > 0`. -/
 theorem weights_pos (thr reg : α) (n d k : Nat) (x r : List (List α)) (p : Params α)
@@ -288,6 +326,76 @@ example : ∀ t p v, ([.ok 0, .ok 1, .ok 2] : List (Except String ℚ))[t]? = so
 example : fitOutcome (1/10 : ℚ) 5 2 [.ok 0, .error "EmptyCluster"] = .error "EmptyCluster" := by
   norm_num [fitOutcome, fitRuns, runLoop, convTest, lbGreater, absS]
 
+
+/-! ## The whole of `fit`: the returned model is a valid mixture from a converged run
+
+`fitFull step tol maxIter nRuns fuel s₀` is `GmmValidParams::fit` after `GaussianMixtureModel::new`: the loop
+`fitOutcome` run on the chain of states `chainFrom` generates with `step` from the initial state `s₀` — the
+function the driver evaluates for the op `fitfull` with `step = emStepFull` (the methods `e_step`, `m_step`
+incl. the Cholesky factorisation).  These theorems join the loop theorems (about an abstract trace) to the
+EM iteration: trace entry `t` IS the lower bound `e_step` reports for state `t`, state `t+1` IS the output of
+`m_step` on it. -/
+section fitfull
+variable {α : Type} [Field α] [LinearOrder α] [IsStrictOrderedRing α]
+
+/-- **what `fit` returns**, for every step function, initial state, tolerance, run / iteration count and
+fuel: chain state `i ≥ 2`, reached by two consecutive successful steps `a → b → s` whose lower bounds (the
+values the steps themselves report) differ by less than the tolerance -/
+theorem fitFull_returns_converged_step_output {σ : Type} (step : σ → Except String (α × σ)) (tol : α)
+    (maxIter nRuns fuel : Nat) (s0 s : σ) (i : Nat)
+    (h : fitFull step tol maxIter nRuns fuel s0 = .ok (i, s)) :
+    2 ≤ i ∧ i ≤ nRuns * maxIter ∧
+    ∃ a b lbA lbB, (chainFrom step fuel s0).2[i - 2]? = some a ∧ (chainFrom step fuel s0).2[i - 1]? = some b ∧
+      step a = .ok (lbA, b) ∧ step b = .ok (lbB, s) ∧ |lbB - lbA| < tol := by
+  unfold fitFull at h
+  dsimp only at h
+  cases ho : fitOutcome tol maxIter nRuns (chainFrom step fuel s0).1 with
+  | error e => rw [ho] at h; simp at h
+  | ok j =>
+    rw [ho] at h
+    simp only at h
+    cases hs : (chainFrom step fuel s0).2[j]? with
+    | none => rw [hs] at h; simp at h
+    | some s' =>
+      rw [hs] at h
+      simp only [Except.ok.injEq, Prod.mk.injEq] at h
+      obtain ⟨rfl, rfl⟩ := h
+      obtain ⟨h2, hb, ⟨p, v, c1, c2, c3⟩, _⟩ := fit_ok_converged tol maxIter nRuns _ j ho
+      have e1 : j = (j - 1) + 1 := by omega
+      rw [e1] at hs
+      obtain ⟨b, lbB, hb1, hb2, hb3⟩ := chainFrom_succ step fuel s0 (j - 1) s' hs
+      have e2 : j - 1 = (j - 2) + 1 := by omega
+      have hb1' := hb1
+      rw [e2] at hb1'
+      obtain ⟨a, lbA, ha1, ha2, ha3⟩ := chainFrom_succ step fuel s0 (j - 2) b hb1'
+      rw [c2] at hb3
+      rw [c1] at ha3
+      simp only [Option.some.injEq, Except.ok.injEq] at hb3 ha3
+      subst hb3; subst ha3
+      exact ⟨h2, hb, a, b, p, v, ha1, hb1, ha2, hb2, c3⟩
+
+/-- a step that fails is the result of `fit`: if the first step from the initial state raises an error
+(emptied component, failed factorisation), `fit` returns that error, for every later behaviour -/
+theorem fitFull_first_step_error {σ : Type} (step : σ → Except String (α × σ)) (tol : α)
+    (maxIter nRuns fuel : Nat) (s0 : σ) (e : String) (h : step s0 = .error e) :
+    fitFull step tol (maxIter + 1) (nRuns + 1) (fuel + 1) s0 = .error e := by
+  unfold fitFull
+  dsimp only
+  have : (chainFrom step (fuel + 1) s0).1 = [.error e] := by
+    unfold chainFrom; rw [h]
+  rw [this, first_step_error_is_fit_error tol maxIter nRuns [.error e] e (by simp)]
+
+end fitfull
+
+/-- non-vacuity: a step function on ℚ-states that halves the distance to 1 and reports the state as its
+lower bound: `fit` with tolerance 1/10 returns the state after the fifth step -/
+example : fitFull (fun s : ℚ => .ok (s, (s + 1) / 2)) (1/10 : ℚ) 10 1 10 0 = .ok (5, 31/32) := by
+  norm_num [fitFull, chainFrom, fitOutcome, fitRuns, runLoop, convTest, lbGreater, absS]
+/-- an error in the first step is the result -/
+example : fitFull (fun _ : ℚ => (.error "EmptyCluster" : Except String (ℚ × ℚ))) (1/10 : ℚ) 10 1 10 0
+    = .error "EmptyCluster" :=
+  fitFull_first_step_error _ _ 9 0 9 0 "EmptyCluster" rfl
+
 /-! ## Probabilities (over ℝ) -/
 
 theorem weightedLogProb_ne_nil (ln2pi : ℝ) (d : Nat) (w : List ℝ) (mu : List (List ℝ))
@@ -412,6 +520,226 @@ theorem em_step_valid (thr reg ln2pi : ℝ) (d : Nat) (w : List ℝ) (mu : List 
     cov_symm thr reg x.length d w.length x _ p h,
     cov_pd thr reg x.length d w.length x _ p hthr hnn h,
     cov_diag_ge_reg thr reg x.length d w.length x _ p hthr hnn h⟩
+
+/-! ## End to end: every model `fit` returns is a valid mixture
+
+`emStepFull` is the body of `fit`'s loop as the driver runs it (`e_step`, `m_step` incl. the Cholesky
+factorisation of the new covariances); `fitFull (emStepFull …)` is `fit` after `new`. -/
+
+/-- the responsibilities the method `e_step` hands over are the E-step matrix `eResp` -/
+theorem eStepFull_snd (ln2pi : ℝ) (d : Nat) (s : State ℝ) (x : List (List ℝ)) :
+    (eStepFull ln2pi d s x).2 = eResp ln2pi d s.weights s.means s.pcs x := by
+  simp [eStepFull, eResp, predictProba, List.map_map, Function.comp_def]
+
+/-- a successful `emStepFull` is a successful model M-step `emStep` (the function `em_step_valid` is about)
+whose covariances all passed the Cholesky step; the lower bound is the one `e_step` reports -/
+theorem emStepFull_ok (thr reg ln2pi : ℝ) (d : Nat) (x : List (List ℝ)) (a b : State ℝ) (lb : ℝ)
+    (h : emStepFull thr reg ln2pi d x a = .ok (lb, b)) :
+    ∃ p, emStep thr reg ln2pi d a.weights a.means a.pcs x = .ok p ∧
+      b.weights = p.weights ∧ b.means = p.means ∧ b.covs = p.covs ∧
+      precCholAll d b.covs = .ok b.pcs ∧ lb = (eStepFull ln2pi d a x).1 := by
+  unfold emStepFull mStepFull at h
+  dsimp only at h
+  rw [eStepFull_snd] at h
+  unfold emStep
+  cases hp : estimateParams thr reg x.length d a.weights.length x (eResp ln2pi d a.weights a.means a.pcs x) with
+  | error e => rw [hp] at h; simp at h
+  | ok p =>
+    rw [hp] at h
+    dsimp only at h
+    cases hc : precCholAll d p.covs with
+    | error e => rw [hc] at h; simp at h
+    | ok pcs =>
+      rw [hc] at h
+      simp only [Except.ok.injEq, Prod.mk.injEq] at h
+      obtain ⟨rfl, rfl⟩ := h
+      exact ⟨p, rfl, rfl, rfl, rfl, hc, rfl⟩
+
+/-- an EM iteration keeps the number of components -/
+theorem emStepFull_weights_length (thr reg ln2pi : ℝ) (d : Nat) (x : List (List ℝ)) (a b : State ℝ) (lb : ℝ)
+    (h : emStepFull thr reg ln2pi d x a = .ok (lb, b)) : b.weights.length = a.weights.length := by
+  obtain ⟨p, hp, hw, _⟩ := emStepFull_ok thr reg ln2pi d x a b lb h
+  unfold emStep at hp
+  obtain ⟨_, _, hw', _, _⟩ := estimateParams_ok thr reg x.length d a.weights.length x _ p hp
+  rw [hw, hw']
+  simp [nkOf]
+
+/-- **every model `fit` returns is a valid mixture from a converged run** — for all records, initial states
+(whatever `new` produced, with at least one component), regularisation values, tolerances, run and iteration
+counts: the returned state has as many components as the initial one, weights positive and summing to one,
+means inside the bounding box of the records, covariances symmetric with `vᵀΣv ≥ reg·|v|²` and diagonal
+`≥ reg`, a `precisions_chol` that is the accepted Cholesky-and-solve result of exactly those covariances,
+and it was reached by two consecutive successful EM iterations `a → b → s` whose lower bounds (the means
+of `log_prob_norm` that `e_step` reports for `a` and for `b`) differ by less than the tolerance. -/
+theorem fit_returns_valid_mixture (thr reg ln2pi tol : ℝ) (d maxIter nRuns fuel : Nat)
+    (x : List (List ℝ)) (s0 s : State ℝ) (i : Nat)
+    (hk : s0.weights ≠ []) (hn : 0 < x.length) (hthr : 0 < thr)
+    (h : fitFull (emStepFull thr reg ln2pi d x) tol maxIter nRuns fuel s0 = .ok (i, s)) :
+    s.weights.length = s0.weights.length ∧
+    sumS s.weights = 1 ∧ (∀ v ∈ s.weights, 0 < v) ∧ s.means.length = s0.weights.length ∧
+    (∀ j c, j < s0.weights.length → c < d → ∀ lo hi : ℝ,
+      (∀ r, r < x.length → lo ≤ at2 x r c ∧ at2 x r c ≤ hi) →
+        lo ≤ at2 s.means j c ∧ at2 s.means j c ≤ hi) ∧
+    (∀ j a b, j < s0.weights.length → a < d → b < d →
+      at2 (s.covs.getD j []) a b = at2 (s.covs.getD j []) b a) ∧
+    (∀ j, j < s0.weights.length → ∀ v : Nat → ℝ, reg * sumRange d (fun a => v a ^ 2) ≤
+      sumRange d (fun a => sumRange d fun b => v a * at2 (s.covs.getD j []) a b * v b)) ∧
+    (∀ j a, j < s0.weights.length → a < d → reg ≤ at2 (s.covs.getD j []) a a) ∧
+    precCholAll d s.covs = .ok s.pcs ∧
+    (2 ≤ i ∧ i ≤ nRuns * maxIter ∧ ∃ a b : State ℝ,
+      emStepFull thr reg ln2pi d x a = .ok ((eStepFull ln2pi d a x).1, b) ∧
+      emStepFull thr reg ln2pi d x b = .ok ((eStepFull ln2pi d b x).1, s) ∧
+      |(eStepFull ln2pi d b x).1 - (eStepFull ln2pi d a x).1| < tol) := by
+  obtain ⟨h2, hb, a, b, lbA, lbB, ha1, hb1, ha2, hb2, hconv⟩ :=
+    fitFull_returns_converged_step_output _ tol maxIter nRuns fuel s0 s i h
+  -- the number of components is an invariant of the chain
+  have hinv := chainFrom_inv (emStepFull thr reg ln2pi d x) (fun st => st.weights.length = s0.weights.length)
+    fuel s0 rfl (fun a' lb' b' ha' hs' => by
+      rw [emStepFull_weights_length thr reg ln2pi d x a' b' lb' hs']; exact ha')
+  have hbK : b.weights.length = s0.weights.length := hinv _ b hb1
+  have hbne : b.weights ≠ [] := by
+    intro hnil
+    rw [hnil] at hbK
+    exact hk (List.length_eq_zero_iff.mp hbK.symm)
+  obtain ⟨p, hp, hw, hm, hc, hpc, hlbB⟩ := emStepFull_ok thr reg ln2pi d x b s lbB hb2
+  obtain ⟨_, _, _, _, _, _, hlbA⟩ := emStepFull_ok thr reg ln2pi d x a b lbA ha2
+  obtain ⟨v1, v2, v3, v4, v5, v6, v7⟩ := em_step_valid thr reg ln2pi d b.weights b.means b.pcs x p hbne hn hthr hp
+  rw [hbK] at v3 v4 v5 v6 v7
+  subst hlbA; subst hlbB
+  refine ⟨?_, ?_, ?_, ?_, ?_, ?_, ?_, ?_, hpc, h2, hb, a, b, ha2, hb2, hconv⟩
+  · rw [emStepFull_weights_length thr reg ln2pi d x b s _ hb2, hbK]
+  · rw [hw]; exact v1
+  · rw [hw]; exact v2
+  · rw [hm]; exact v3
+  · rw [hm]; exact v4
+  · rw [hc]; exact v5
+  · rw [hc]; exact v6
+  · rw [hc]; exact v7
+
+/-- the accepted factor of every component: `precCholAll` succeeds exactly when `precCholOf` (Cholesky, then
+forward substitution against the identity, transposed) succeeds on every covariance, component by component -/
+theorem precCholAll_getD {α : Type} [Field α] [LinearOrder α] [Transc α] (d : Nat) :
+    ∀ (covs pcs : List (List (List α))), precCholAll d covs = .ok pcs →
+      pcs.length = covs.length ∧ ∀ j, j < covs.length → precCholOf d (covs.getD j []) = .ok (pcs.getD j []) := by
+  intro covs
+  induction covs with
+  | nil => intro pcs h; simp [precCholAll] at h; subst h; simp
+  | cons c cs ih =>
+    intro pcs h
+    unfold precCholAll at h
+    cases hc : precCholOf d c with
+    | error e => rw [hc] at h; simp at h
+    | ok pc =>
+      rw [hc] at h
+      dsimp only at h
+      cases hr : precCholAll d cs with
+      | error e => rw [hr] at h; simp at h
+      | ok rest =>
+        rw [hr] at h
+        simp only [Except.ok.injEq] at h
+        subst h
+        obtain ⟨hl, hg⟩ := ih rest hr
+        refine ⟨by simp [hl], ?_⟩
+        intro j hj
+        cases j with
+        | zero => simpa using hc
+        | succ j => simpa using hg j (by simpa using hj)
+
+/-- **precisions of a returned model are the inverses of its covariances**, component by component, under
+the contract of the modelled factorisation for the covariance at hand (`C = precCholOf Σ` satisfies
+`C Cᵀ Σ = 1`; proved below for one feature, validated by the oracle on every fitted model otherwise) -/
+theorem fitted_precision_is_inverse (d : Nat) (covs pcs : List (List (List ℝ))) (j : Nat)
+    (hall : precCholAll d covs = .ok pcs) (hj : j < covs.length)
+    (hcontract : ∀ C, precCholOf d (covs.getD j []) = .ok C →
+      toMat d C * (toMat d C).transpose * toMat d (covs.getD j []) = 1) :
+    toMat d (precisionsFull d (pcs.getD j [])) * toMat d (covs.getD j []) = 1 ∧
+    toMat d (covs.getD j []) * toMat d (precisionsFull d (pcs.getD j [])) = 1 := by
+  obtain ⟨_, hg⟩ := precCholAll_getD d covs pcs hall
+  have h1 : toMat d (precisionsFull d (pcs.getD j [])) * toMat d (covs.getD j []) = 1 := by
+    rw [precisionsFull_toMat]
+    exact hcontract _ (hg j hj)
+  exact ⟨h1, mul_eq_one_comm.mp h1⟩
+
+/-- **the contract of the modelled factorisation holds for one feature**: whenever `precCholOf` accepts a
+1×1 covariance `[[a]]` (i.e. `a > 0`), its result `C = [[1/√a]]` satisfies `C Cᵀ Σ = 1` — no hypothesis.
+(For `d > 1` the contract `L Lᵀ = Σ` of the Cholesky recursion is not proved; see the notes.) -/
+theorem chol_contract_one_feature (cov C : List (List ℝ)) (h : precCholOf 1 cov = .ok C) :
+    toMat 1 C * (toMat 1 C).transpose * toMat 1 cov = 1 := by
+  simp [precCholOf, cholesky, cholRow, cholRowD, solveLowerCol, List.range_succ, sumRange, sumS, Transc.sqrt] at h
+  by_cases ha : at2 cov 0 0 ≤ 0
+  · simp [ha] at h
+  · simp [ha] at h
+    subst h
+    have hpos : 0 < at2 cov 0 0 := not_le.mp ha
+    funext a b
+    have ha' : a = 0 := Subsingleton.elim _ _
+    have hb' : b = 0 := Subsingleton.elim _ _
+    subst ha'; subst hb'
+    simp [Matrix.mul_apply, toMat, at2]
+    have hx : at2 cov 0 0 = (cov[0]?.getD [])[0]?.getD 0 := by simp [at2]
+    rw [hx] at hpos
+    generalize (cov[0]?.getD [])[0]?.getD 0 = v at hpos
+    have hs : Real.sqrt v * Real.sqrt v = v := Real.mul_self_sqrt hpos.le
+    have hne : Real.sqrt v ≠ 0 := (Real.sqrt_pos.mpr hpos).ne'
+    field_simp
+    nlinarith [hs]
+
+/-- hence, with one feature, the precisions of every model `fit` returns are the inverses of its
+covariances (no contract hypothesis left) -/
+theorem fitted_precision_is_inverse_one_feature (covs pcs : List (List (List ℝ))) (j : Nat)
+    (hall : precCholAll 1 covs = .ok pcs) (hj : j < covs.length) :
+    toMat 1 (precisionsFull 1 (pcs.getD j [])) * toMat 1 (covs.getD j []) = 1 ∧
+    toMat 1 (covs.getD j []) * toMat 1 (precisionsFull 1 (pcs.getD j [])) = 1 :=
+  fitted_precision_is_inverse 1 covs pcs j hall hj (fun C hC => chol_contract_one_feature _ C hC)
+
+/-- non-vacuity: the factorisation accepts `[[4]]` and returns `[[1/2]]` -/
+example : precCholAll 1 [[[(4 : ℝ)]]] = .ok [[[1/2]]] := by
+  have sqrt4 : Real.sqrt 4 = 2 := by
+    rw [show (4:ℝ) = 2^2 by norm_num]; exact Real.sqrt_sq (by norm_num)
+  have h4 : ¬ ((4:ℝ) ≤ 0) := by norm_num
+  simp [precCholAll, precCholOf, cholesky, cholRow, cholRowD, solveLowerCol, sumRange, sumS, at2, List.range_succ, Transc.sqrt, h4, sqrt4]
+
+/-- non-vacuity of `fit_returns_valid_mixture` (and of `emStepFull_ok`): two records `0, 2` on a line, one
+component; the state `μ = 1, Σ = 4, precisions_chol = 1/2` is a fixed point of the EM iteration with
+`reg = 3` (`Σ = ((0−1)² + (2−1)²)/2 + 3`, Cholesky `√4 = 2`, forward substitution `1/2`), lower bound
+`−1/8 + ln(1/2)` … -/
+noncomputable def sfix : State ℝ := ⟨[1], [[1]], [[[4]]], [[[1/2]]]⟩
+
+theorem sfix_step : emStepFull (1/100 : ℝ) 3 0 1 [[0],[2]] sfix = .ok (-(1/8) + Real.log (1/2), sfix) := by
+  have sqrt4 : Real.sqrt 4 = 2 := by
+    rw [show (4:ℝ) = 2^2 by norm_num]; exact Real.sqrt_sq (by norm_num)
+  simp [emStepFull, mStepFull, eStepFull, estimateParams, nkOf, meansOf, covOf,
+    logRespStable, weightedLogProb, maha, logDet, rowMax, negHalf, sumRange, sumS, at2, sfix, List.range_succ, Transc.exp, Transc.ln]
+  have h1 : ¬ ((1:ℝ) + 1 < 100⁻¹) := by norm_num
+  rw [if_neg h1]
+  have h3 : (2:ℝ) / (1 + 1) = 1 := by norm_num
+  simp only [h3]
+  have h4 : ¬ ((4:ℝ) ≤ 0) := by norm_num
+  simp [precCholAll, precCholOf, cholesky, cholRow, cholRowD, solveLowerCol, sumRange, sumS, at2, List.range_succ, Transc.sqrt]
+  have h5 : ((1:ℝ) + (2 - 1) * (2 - 1)) / (1 + 1) + 3 = 4 := by norm_num
+  rw [h5, if_neg h4, sqrt4]
+  simp
+  ring
+
+/-- … so `fit` (tolerance 1, one run of three iterations) returns chain state 2, that very state: the
+hypothesis `fitFull … = .ok (i, s)` of `fit_returns_valid_mixture` is satisfiable -/
+example : fitFull (emStepFull (1/100 : ℝ) 3 0 1 [[0],[2]]) 1 3 1 3 sfix = .ok (2, sfix) := by
+  have hc : chainFrom (emStepFull (1/100 : ℝ) 3 0 1 [[0],[2]]) 3 sfix
+      = ([.ok (-(1/8) + Real.log (1/2)), .ok (-(1/8) + Real.log (1/2)), .ok (-(1/8) + Real.log (1/2))],
+         [sfix, sfix, sfix, sfix]) := by
+    simp only [chainFrom, sfix_step]
+  unfold fitFull
+  rw [hc]
+  simp [fitOutcome, fitRuns, runLoop, convTest, lbGreater, absS]
+
+/-- the contract hypothesis of `fitted_precision_is_inverse` holds for this model: `C Cᵀ Σ = (1/2)² · 4 = 1` -/
+example : toMat 1 (precisionsFull 1 (sfix.pcs.getD 0 [])) * toMat 1 (sfix.covs.getD 0 []) = 1 := by
+  funext a b
+  have ha : a = 0 := Subsingleton.elim _ _
+  have hb : b = 0 := Subsingleton.elim _ _
+  subst ha; subst hb
+  simp [Matrix.mul_apply, toMat, precisionsFull, sfix, at2, sumRange, sumS, List.range_succ]
+  norm_num
 
 /-- non-vacuity of `em_step_valid`'s hypotheses other than the guard: rows of an E-step on two
 observations under a two-component mixture sum to one (so an `emStep` has well-formed input) -/
